@@ -114,6 +114,10 @@ func runSysFault(x *X) {
 			ex.chunked = c.Intn(3, "chunked") == 0
 		}
 		ex.newConn = c.Intn(3, "newconn") == 0
+		if o.breaker != nil && c.Intn(3, "pause-past-breaker-timeout") == 0 {
+			// let an open breaker reach half-open, so that this (possibly faulty) exchange is a trial
+			ex.pause = time.Duration(o.breaker.TimeoutSeconds)*time.Second + 100*time.Millisecond
+		}
 		rs := &respScript{status: 200, framing: []string{"cl", "chunked"}[c.Intn(2, "framing")], hdr: []hdrKV{{"Content-Type", "text/plain"}}}
 		rs.body = genBody(x, "resp", 64)
 		ex.resp = rs
